@@ -37,6 +37,7 @@ fn innermost_prqlc_frame() -> String {
     }
     "?".to_string()
 }
+mod ops_pure;
 
 fn main() {
     // silence the default panic message; panics are reported in the answer
